@@ -15,7 +15,7 @@ def run(tier, config):
     rep = Report("C13")
     c = K.crate("gamedig-lib", config)
     g = K.callgraph(c)
-    n = K.ledger_obligations(rep, c, "C13", lambda s: "::tests::" not in s.fn, kinds=("alloc",), label="allocation-site")
+    n = K.ledger_obligations(rep, c, "C13", lambda s: "::tests::" not in s.fn and not s.fn.startswith("gamedig::capture::"), kinds=("alloc",), label="allocation-site")
     # D2 receive sizes
     an = K.analysis(c)
     n_recv = 0
